@@ -1,3 +1,96 @@
 import Anytree.Spec.Render
+import Anytree.Lemmas.Render
+/-!
+# C09 — RenderTree draws every tree faithfully; prefixes encode each node's position
+-/
 namespace Anytree.Props.C09
+open Anytree Tree Render Spec
+variable {α : Type}
+
+/-- `childiter` only returns children it was given -/
+def Selects (childiter : List (Tree α) → List (Tree α)) : Prop :=
+  ∀ cs, ∀ x ∈ childiter cs, x ∈ cs
+
+/-- **rows = specification**: one row per node of the rendered view (childiter applied at every
+level, cut at depth `max(maxlevel, 1)`), in pre-order, `pre`/`fill` the stated function of the
+node's address in the view -/
+theorem rows_eq_spec (style : Style) (childiter : List (Tree α) → List (Tree α))
+    (maxlevel : Option Int) (t : Tree α) :
+    (rows style childiter maxlevel t).map (fun r => (r.pre, r.fill, r.node.label)) =
+      rowsS style childiter maxlevel t := by
+  have h := nextF_eq_specRows style childiter maxlevel (t.height + 1) t [] 0
+  simp only [specRows, List.nil_append] at h
+  exact h
+
+/-- the root's `pre` and `fill` are empty -/
+theorem root_row_empty (style : Style) (childiter : List (Tree α) → List (Tree α))
+    (maxlevel : Option Int) (t : Tree α) :
+    (rowsS style childiter maxlevel t).head? = some ("", "", t.label) := by
+  have hl := renderView_label childiter maxlevel (t.height + 1) 0 t
+  generalize hv : renderView childiter maxlevel (t.height + 1) 0 t = v at hl
+  simp only [rowsS, hv]
+  cases v with
+  | node a cs =>
+    simp only [label_node] at hl
+    simp [addrs, sub, prefixesAt_eq_pf, flagsAt_nil, pf_nil, hl]
+
+/-- `maxlevel ≤ 1` (including 0 and negative values) renders the start node only -/
+theorem maxlevel_le_one (style : Style) (childiter : List (Tree α) → List (Tree α)) (k : Int)
+    (hk : k ≤ 1) (t : Tree α) : rowsS style childiter (some k) t = [("", "", t.label)] := by
+  cases t with
+  | node a cs =>
+    have hd : descend (some k) 0 = false := by simp [descend]; omega
+    simp only [rowsS, renderView_succ, hd]
+    simp [addrs, addrsL, sub, prefixesAt_eq_pf, flagsAt_nil, pf_nil]
+
+/-- an equal-width style -/
+def EqualWidth (s : Style) (w : Nat) : Prop :=
+  s.vertical.length = w ∧ s.cont.length = w ∧ s.end_.length = w
+
+/-- for a node at depth `d`, `pre` and `fill` both have `d` segments of the style's width -/
+theorem row_width (style : Style) (w : Nat) (hw : EqualWidth style w) (v : Tree α) (a : Addr) :
+    (prefixesAt style v a).1.length = a.length * w ∧ (prefixesAt style v a).2.length = a.length * w := by
+  obtain ⟨hv, hc, he⟩ := hw
+  have := pf_length style w hv hc he (flagsAt v a)
+  rw [length_flagsAt] at this
+  exact this
+
+/-- the four built-in styles (extracted from the source on every run) have equal widths -/
+theorem builtin_styles_equal_width :
+    ∀ e ∈ Generated.styles, e.2.1.length = e.2.2.1.length ∧ e.2.2.1.length = e.2.2.2.length ∧ 0 < e.2.1.length := by
+  decide
+
+/-- segment `j` of `fill` is the vertical bar iff the ancestor-or-self at depth `j+1` has a
+following sibling, and the last segment of `pre` is the continue branch iff the node itself has -/
+theorem flagsAt_spec (v : Tree α) (a : Addr) (j : Nat) (hj : j < a.length) :
+    (flagsAt v a)[j]? = some (decide (a.getD j 0 + 1 < nkids v (a.take j))) := by
+  simp [flagsAt, hj]
+
+/-- **the shape of the rendered subtree can be reconstructed from the drawing alone**: the depths of
+the rows (with an equal-width style: `fill.length / w`) determine the shape of the view -/
+theorem decode_rows (v : Tree α) : treeOfDepths ((addrs v).map List.length) = some (shape v) := by
+  cases v with
+  | node a cs =>
+    have h : forestOfDepths (((addrsL 0 cs).map List.length).length + 1) (0 + 1)
+        ((addrsL 0 cs).map List.length) = (mapL (fun _ => ()) cs, []) := by
+      have := forestOfDepths_addrsL cs 0 (((addrsL 0 cs).map List.length).length + 1) [] 0
+        (by rw [List.length_map, length_addrsL]; omega) (by simp)
+      simpa using this
+    simp only [treeOfDepths, addrs, List.map_cons, List.length_nil, List.length_cons,
+      forestOfDepths, if_true, h, shape, Tree.map]
+
+/-- `str()`/`by_attr()`: `pre` + first line, `fill` + each further line; an empty value still
+produces one line -/
+theorem formatRow_spec (r : Row α) (lines : List String) :
+    formatRow r lines =
+      (r.pre ++ lines.headD "") :: lines.tail.map (fun x => r.fill ++ x) := by
+  cases lines <;> rfl
+theorem formatRow_nonempty (r : Row α) (lines : List String) : formatRow r lines ≠ [] := by
+  cases lines <;> simp [formatRow]
+
+-- non-vacuity
+example : (rowsS (⟨"|  ", "|- ", "+- "⟩ : Style) id none
+    (node 0 [node 1 [node 3 []], node 2 []] : Tree Nat)) =
+    [("", "", 0), ("|- ", "|  ", 1), ("|  +- ", "|     ", 3), ("+- ", "   ", 2)] := by decide
+
 end Anytree.Props.C09
